@@ -177,8 +177,8 @@ def calc_cav_dp(asig):
     start = 0
     pga_max = 0
     cav_dp = 0
-    points_per_sec = (int(1 / asig.dt))
-    total_seconds = int(asig.time[-1])
+    points_per_sec = int(round(1 / asig.dt))  # 1 / (1 / 93.) is 92.99999999999999
+    total_seconds = int(asig.time[-1] + 0.5 * asig.dt)  # (npts - 1) * dt may fall just below the whole second
     cav_dp_1_series = []
     acc_in_g = asig.values / 9.81
 
